@@ -1591,7 +1591,7 @@ fn main() {
     } else {
         vec![
             sp(Size::Full, Size::Full, Size::Full, Size::None),
-            sp(Size::Full, Size::Tiny, Size::Tiny, Size::Small),
+            sp(Size::Full, Size::None, Size::Tiny, Size::Tiny),
             sp(Size::Micro, Size::None, Size::None, Size::None),
         ]
     };
